@@ -318,6 +318,17 @@ def body_setops(H, case):
                 H.prove(f"{nm}: a probe in cell {c} is {'inside' if expect else 'outside'} the result", bool(g) == bool(expect))
         H.prove(f"{nm}: the result is a new Polygon", R is not A and R is not B and R is not Cc and isinstance(R, tdgl.Polygon))
         H.prove(f"{nm}: the result does not share memory with an operand", not any(shares_memory(R.points, P.points) for P in (A, B, Cc)))
+    # a result that is not simply connected must be refused, not silently replaced by its outline
+    D = _box(H, "D", 0.6, 0.6, 1.4, 1.4)  # strictly inside A, away from B and C
+    if H.mode == "sym":
+        fakegeo.mark_inside(D.points, A.points)
+    for nm, make in (("A.difference(D)", lambda: A.difference(D)), ("A - D", lambda: A - D)):
+        try:
+            R = make()
+            refused = False
+        except ValueError:
+            refused = True
+        H.prove(f"{nm} with D strictly inside A (the result has a hole) is refused with a ValueError", refused)
     for nm, P in (("A", A), ("B", B), ("C", Cc)):
         H.prove(f"operand {nm} is unchanged by all set operations", unchanged(H, P, snaps[nm]))
 
